@@ -71,7 +71,7 @@ def run(pid, tier, seed):
     # an outcome all of whose paths are refutable: tolerated only when the contract declares it conditional
     # (e.g. TreeError of the recursive restore); reported in the evidence
     res.notes.append("outcomes with only refutable paths (dead under the contract): %s" % sorted("%s:%s" % k for k in dead))
-    bad = [o for o in res.obligations if o.kind != "CANARY" and o.result != "unsat"]
+    bad = [o for o in res.obligations if o.kind not in ("CANARY", "PROBE") and o.result != "unsat"]
     if getattr(res, "disagree", None):
         res.faults.append("back ends disagree")
     if bad or res.struct:
